@@ -266,7 +266,17 @@ def judge(c, rec):
             common[i], av[i], zv[i], c["alt"], int((np.isfinite(av) != np.isfinite(zv)).sum())))
     if not np.array_equal(av[both].view(np.uint64), zv[both].view(np.uint64)):
         i = int(np.nonzero(av[both].view(np.uint64) != zv[both].view(np.uint64))[0][0])
-        rec.violation("%s/prediction-depends-on-observed" % fam, c, "at %s: %r with the original usage, %r after '%s' (%d of %d rows differ)" % (
+        tag = ""
+        if sub and c.get("sub_entry", "from_series") == "from_series" and "observed" in df2:
+            # from_series trims the weather to the metered span: when the altered usage starts or ends with missing readings, the first /
+            # last day's mean temperature is taken over fewer hours. Only differences confined to those edge days carry this tag.
+            o2s = df2["observed"]
+            edge_nan = bool(np.isnan(o2s.values[0]) or np.isnan(o2s.values[-1]))
+            diff_rows = common[both][av[both].view(np.uint64) != zv[both].view(np.uint64)]
+            edge_days = {common[both][0], common[both][-1]}
+            if edge_nan and set(diff_rows) <= edge_days:
+                tag = "/edge-day/usage-missing-at-the-end-of-the-span"
+        rec.violation("%s/prediction-depends-on-observed%s" % (fam, tag), c, "at %s: %r with the original usage, %r after '%s' (%d of %d rows differ)" % (
             common[both][i], av[both][i], zv[both][i], c["alt"], int((av[both] != zv[both]).sum()), int(both.sum())))
     # hourly families: same rows; daily/billing: a prediction of the altered run sits on a row of the original run (days are days)
     stray = z.index[np.isfinite(z.values)].difference(a.index)
